@@ -25,7 +25,7 @@ Theorem C04_lr_sound :
   forall g tb skipws next_token stop_id consume_input in_layout start fuel pos t rp lay tr,
     table_struct g tb start = true ->
     lr_parse g tb skipws next_token stop_id consume_input in_layout fuel pos = LROk t rp lay tr ->
-    wf_tree g t /\ root_sym g t = Some (NT start).
+    wf_tree g t /\ root_sym g t = Some (NT start) /\ leaves t = strip tr.
 Proof. exact lr_sound. Qed.
 Print Assumptions C04_lr_sound.
 
